@@ -19,6 +19,40 @@ def load_registry():
     return json.load(open(p)) if os.path.exists(p) else {}
 
 
+def _inline_stripped(text):
+    """`//@inline-stripped <path>`: the text of a crate-root file of the tree under check (a binary crate's main.rs, which
+    cannot be linked or loaded as a module) is placed at the crate root of the harness, mechanically, on every run.
+    Dropped, and nothing else: inner attributes (`#![..]`), `mod x;` declarations (the harness declares the same modules
+    with #[path] onto the same files) and the empty native `fn main() {}` with its cfg attribute."""
+    import re
+    out = []
+    for line in text.split('\n'):
+        m = re.match(r'\s*//@inline-stripped\s+(\S+)\s*$', line)
+        if not m:
+            out.append(line)
+            continue
+        path = m.group(1)
+        if not os.path.exists(path):
+            out.append('compile_error!("vx: %s does not exist in the tree under check");' % path)
+            continue
+        src_lines = open(path).read().split('\n')
+        kept, dropped, i = [], [], 0
+        while i < len(src_lines):
+            l = src_lines[i]
+            if re.match(r'\s*#!\[', l) or re.match(r'\s*mod \w+;\s*$', l):
+                dropped.append(l)
+            elif re.match(r'\s*#\[cfg\(not\(target_family = "wasm"\)\)\]\s*$', l) and i + 1 < len(src_lines) and re.match(r'\s*fn main\(\) \{\}\s*$', src_lines[i + 1]):
+                dropped += [l, src_lines[i + 1]]
+                i += 1
+            else:
+                kept.append(l)
+            i += 1
+        out.append('// ---- inlined from %s; dropped lines: %s' % (path, json.dumps(dropped)))
+        out += kept
+        out.append('// ---- end of inlined text')
+    return '\n'.join(out)
+
+
 def run_bounded(bid, tier='quick', repo='/repo', extra_args=None):
     t0 = time.time()
     reg = load_registry().get(bid) or {}
@@ -44,6 +78,7 @@ def run_bounded(bid, tier='quick', repo='/repo', extra_args=None):
             os.makedirs(link)
             for fn in os.listdir(os.path.join(src, 'src')):
                 t_ = open(os.path.join(src, 'src', fn)).read().replace('@REPO@', repo)
+                t_ = _inline_stripped(t_)
                 open(os.path.join(link, fn), 'w').write(t_)
         else:
             os.symlink(os.path.join(src, 'src'), link)
